@@ -36,6 +36,7 @@ from numbers import Number
 import collections
 
 import votelib.candidate
+import votelib.persist
 from votelib.candidate import Candidate
 from votelib.persist import simple_serialization
 
@@ -143,6 +144,7 @@ class VoteMagnitudeChecker:
 
     def to_dict(self) -> Dict[str, Any]:
         return {
+            'class': votelib.persist.scoped_class_name(self),
             'bounds': [self.min_value, self.max_value],
             'value_name': self.value_name
         }
